@@ -532,7 +532,13 @@ impl<A: Cx> World<A> {
                     }
                     words.push(x as usize);
                 }
-                match Seq::<A>::from_raw(gu(op, "n"), &words) {
+                // the count: a number, or 16-bit limbs for counts up to usize::MAX
+                let n = if op["nl"].is_array() {
+                    op["nl"].as_array().unwrap().iter().enumerate().fold(0u64, |acc, (i, x)| acc | (x.as_u64().unwrap() << (16 * i))) as usize
+                } else {
+                    gu(op, "n")
+                };
+                match Seq::<A>::from_raw(n, &words) {
                     Some(s) => json!({"ok": true, "v": self.put(gu(op, "dst"), s)}),
                     None => json!({"ok": false}),
                 }
@@ -691,6 +697,26 @@ impl<A: Cx> World<A> {
                 self.put(gu(op, "dst"), s)
             }
             // ---------------------------------------------------------------- observers
+            "far" => {
+                // positions far beyond any sequence, given as 16-bit limbs (up to usize::MAX)
+                let lim = |v: &Value| -> usize {
+                    v.as_array().unwrap().iter().enumerate().fold(0u64, |acc, (i, x)| acc | (x.as_u64().unwrap() << (16 * i))) as usize
+                };
+                let (a, b) = (lim(&op["a"]), lim(&op["b"]));
+                let how = gs(op, "how");
+                // a slice that comes back is reported by its length only (nothing else is safe to ask of it)
+                self.with_src(&op["src"], &mut |s| match how {
+                    "get" => json!({"res": s.get(a).map_or(-1, |x| x.to_bits() as i64)}),
+                    "nth" => json!({"res": s.nth(a).to_bits() as i64}),
+                    "idx" => json!({"len": s[a].len()}),
+                    "r" => json!({"len": s[a..b].len()}),
+                    "ri" => json!({"len": s[a..=b].len()}),
+                    "rt" => json!({"len": s[..b].len()}),
+                    "rti" => json!({"len": s[..=b].len()}),
+                    "rf" => json!({"len": s[a..].len()}),
+                    o => panic!("harness: far form {o}"),
+                })
+            }
             "obs" => {
                 let gets: Vec<usize> = op["gets"].as_array().unwrap().iter().map(|x| x.as_u64().unwrap() as usize).collect();
                 let nths: Vec<usize> = op["nths"].as_array().unwrap().iter().map(|x| x.as_u64().unwrap() as usize).collect();
